@@ -14,6 +14,7 @@ mod c12;
 mod c13;
 mod c14;
 mod c16;
+mod c19;
 mod c20;
 mod prio3;
 mod rec;
@@ -52,6 +53,7 @@ fn main() {
         "C13" => c13::run(&mut out, thorough, seed),
         "C14" => c14::run(&mut out, thorough, seed),
         "C16" => c16::run(&mut out, thorough, seed),
+        "C19" => c19::run(&mut out, thorough, seed),
         "C20" => c20::run(&mut out, thorough, seed),
         "C07" | "C08" => codec::run(&mut out, thorough, seed, prop),
         _ => {
